@@ -48,10 +48,15 @@ def main():
     corruptions = [
         ('KeysAreDescriptors', lambda e: e['ev'] in ('construct', 'fit'),
          lambda e: upd(e, keys=e['keys'][:-1] + [e['keys'][-1] + 'x'])),
-        ('NormalEquations', over, lambda e: upd(e, off=[bump(e['off'][0], 1e-3)] + e['off'][1:])),
+        ('NormalEquations', over, lambda e: upd(e, fitv=[bump(e['fitv'][0], 1e-3)] + e['fitv'][1:])),
+        ('FittedValuesMatchOffsets', over, lambda e: upd(e, off=[bump(e['off'][0], 1e-3)] + e['off'][1:])),
+        ('FittedBounded', lambda e: e['ev'] in ('construct', 'fit'),
+         lambda e: upd(e, fitv=[[v[0], v[1] + 1] for v in e['fitv']])),
+        ('OffsetsBounded', lambda e: e['ev'] in ('construct', 'fit'),
+         lambda e: upd(e, off=[[v[0], v[1] + 12] for v in e['off']])),
         ('Reproduces', square1, lambda e: upd(e, exp=[bump(e['exp'][0], 1e-4)])),
         ('TrefIsMean', lambda e: e['ev'] in ('construct', 'fit'), lambda e: upd(e, Tref=bump(e['Tref'], 1e-5))),
-        ('NormalEquations', lambda e: e['ev'] == 'append',          # an edit that changes the offsets without fitting
+        ('FittedValuesMatchOffsets', lambda e: e['ev'] == 'append',  # an edit that changes the offsets without fitting
          lambda e: upd(e, off=[bump(e['off'][0], 1e-2)] + e['off'][1:])),
         ('AppliesFittedOffsets', lambda e: e['ev'] == 'eval' and any(e['x']),
          lambda e: upd(e, x=[v + 1 for v in e['x']])),
